@@ -267,6 +267,7 @@ def run(ctx):
     if notrun and not errs:
         raise Machinery("%d cases were not replayed although no single case reproduced the crash of a replay worker" % len(notrun))
     ctx.note("replay_pool", pool_info)
+    ctx.note("dataset_path", {"judged": sum("dsdata" in r for r in recs), "unavailable": sum("dataset_unavailable" in r for r in recs)})
     good = [r for r in recs if "skip" not in r and "error" not in r and "notrun" not in r]
     small = [r for r in good if len(r["mesh"]) <= 60]
     large = [r for r in good if len(r["mesh"]) > 60]
@@ -319,7 +320,7 @@ def run(ctx):
         "counter-clockwise by exact integer determinants (wedges tile the turn once; face interior points sorted by azimuth; the "
         "reversed ring is rejected), Euler duality and dual(dual) = mesh hold, renumbering commutes; every state is emitted with "
         "its expected ring table. Each case is built with Grid.from_topology (pole longitude, +-180 and pre-access order varied), "
-        "Grid.get_dual and UxDataArray.get_dual (face and node tracers) are called, JIT on and (subset) off, and TLC "
+        "Grid.get_dual, UxDataArray.get_dual and UxDataset.get_dual (face and node tracers) are called, JIT on and (subset) off, and TLC "
         "(JudgeDual.tla) judges table, ring order per surrounded node, sizes, positions (projected to face ids within 1e-8 rad) "
         "and data. Evaluations = dual faces judged; non-trivial = distinct (mesh, placement, configuration) with a surrounded node."
     )
@@ -331,5 +332,5 @@ def run(ctx):
         "float evaluation of lattice directions to lon/lat degrees",
         "random planar patches and sample files are not TLC-certified counter-clockwise: a float orientation pre-check admits them",
         "on partial grids ring order is judged only at fully surrounded nodes, and the numbering of dual faces is left free",
-        "UxDataset.get_dual is not exercised (UxDataset.__setitem__ fails under the installed xarray: C10 territory)",
+        "UxDataset.get_dual is judged only when a UxDataset can be built at all (C10's subject); otherwise noted",
     ]
